@@ -24,7 +24,7 @@ if [ -n "$TESTS" ]; then
   (cd $W && HOME=$W/home PYTHONPATH=$W timeout 3000 /venv/bin/python -m pytest -q -p no:cacheprovider -n 4 $TESTS 2>&1 | tail -3) | tee $W/tests.log
 fi
 cd /verif
-VERIF_REPO=$W VERIF_SHARDS=${SHARDS:-8} timeout 3000 ./check $PROP --tier quick > $W/check.log 2>&1
+VERIF_EVIDENCE=$W/evidence VERIF_REPO=$W VERIF_SHARDS=${SHARDS:-8} timeout 3000 ./check $PROP --tier quick > $W/check.log 2>&1
 echo "check exit=$? ($(grep -c '^VIOLATION' $W/check.log) violation lines)"
 grep -A1 "^VIOLATION" $W/check.log | grep signature | head -5
 tail -2 $W/check.log | head -1
